@@ -1,7 +1,7 @@
 //! Position-history monitors: the shared walker and the oracles for C01-C05.
 
 use crate::real::{self, moves_str, mv, mv_back, observe, partition_ok, pos, real_moves, snapshot};
-use crate::report::Collector;
+use refmodel::report::Collector;
 use crate::workload::{self, Crafted, Theme, THEMES};
 use chess_movegen::{Board, ChessMove, GameState};
 use refmodel::json::{obj, J};
